@@ -854,6 +854,9 @@ func (x *Exec) copySlices(st *State, dst, src *Value, dt types.Type) *Value {
 			na = Store(na, Add(SOff(dst.Tm), IntLit(i)), Select(srcArr, Add(srcOff, IntLit(i))))
 		}
 		st.hset(k, x.vc.define("h", Store(m, SArr(dst.Tm), x.vc.define("cp", na))), SArr(dst.Tm))
+		if SArr(dst.Tm).Op == "subref" {
+			x.syncSubRef(st, SArr(dst.Tm), k, ks)
+		}
 		return &Value{T: types.Typ[types.Int], Tm: n}
 	}
 	na := x.fresh("cp", ArrS(IntS, es))
@@ -865,6 +868,9 @@ func (x *Exec) copySlices(st *State, dst, src *Value, dt types.Type) *Value {
 		mk("select", "", es, nil, oldD, j)))
 	x.vc.assume(Forall([]*Term{j}, body, sel))
 	st.hset(k, x.vc.define("h", Store(m, SArr(dst.Tm), na)), SArr(dst.Tm))
+	if SArr(dst.Tm).Op == "subref" {
+		x.syncSubRef(st, SArr(dst.Tm), k, ks)
+	}
 	return &Value{T: types.Typ[types.Int], Tm: n}
 }
 
